@@ -79,6 +79,23 @@ func genCase(r *h.Run, idx int) caseT {
 
 var progress int64
 
+var bigOnce sync.Once
+var bigPath string
+
+// bigFile is a sparse 16 MiB file for queued Sendfile backlogs.
+func bigFile() string {
+	bigOnce.Do(func() {
+		f, err := os.CreateTemp("", "vc18big")
+		if err != nil {
+			return
+		}
+		_ = f.Truncate(16 << 20)
+		bigPath = f.Name()
+		f.Close()
+	})
+	return bigPath
+}
+
 func settle(base map[string]string, get func() map[string]string) []string {
 	var d []string
 	for i := 0; i < 100; i++ {
@@ -232,6 +249,14 @@ func runCase(r *h.Run, c caseT) {
 		cmu.Unlock()
 		if c.Net != "udp" {
 			for i := 0; i < c.Backlog && i < len(sc); i++ {
+				if (i+c.Index)%2 == 1 {
+					// a file range that does not fit the socket: the engine keeps its own dup'ed descriptor queued
+					if f, err := os.Open(bigFile()); err == nil {
+						_, _ = sc[i].Sendfile(f, 0)
+						f.Close()
+						continue
+					}
+				}
 				_, _ = sc[i].Write(make([]byte, 6<<20)) // the peer never reads: stays queued
 			}
 		}
@@ -551,6 +576,12 @@ var _ = outb.Tick
 func main() {
 	r := h.Start("C18")
 	defer r.Finish()
+	defer func() {
+		if bigPath != "" {
+			os.Remove(bigPath)
+		}
+	}()
+	_ = bigFile()
 	logging.SetLogger(&h.CapLogger{})
 	// warm up lazily started runtime/helper goroutines and descriptors so that
 	// they are part of every baseline
